@@ -63,7 +63,7 @@ theorem ComptonEnergy_ne_any (E θ : ℝ) : Spec.ComptonEnergy E θ ≠ .any := 
 theorem MomentTransf_ne_any (E θ : ℝ) : Spec.MomentTransf E θ ≠ .any := by unfold Spec.MomentTransf; split_ifs <;> simp
 
 theorem composed_ne_any (T : Tables ℝ) (Z l1 l2 : Int) : composed T Z l1 l2 ≠ .any := by
-  unfold composed; simp only []; split_ifs <;> simp
+  unfold composed wmean; simp only []; split_ifs <;> simp
 
 /-! ## C01 / C02 / C02b: the remaining lookup and spline sites -/
 
